@@ -1,2 +1,7 @@
 import Just.Model.Run
 import Just.Json
+import Just.Lemmas.RunSpec
+import Just.Lemmas.RunLeaf
+import Just.Props.C01
+import Just.Props.C14
+import Just.Props.C02
